@@ -16,6 +16,7 @@ and order independence is proved under separation of the CLAIMED scores
 -/
 import Restful.Lemmas.Order
 import Restful.Lemmas.OrderJsr
+import Restful.Lemmas.StateShape
 namespace Restful
 namespace Props
 variable (E : ReEnv)
@@ -168,6 +169,12 @@ theorem C03_F05_witness :
     Spec.hasSameShapeRoots { router := .curly, services := [f05SvcVars, f05SvcLit] } = false ∧
     Spec.scoresSeparateB { router := .curly, services := [f05SvcVars, f05SvcLit] } f05Req = false := by
   decide
+
+/-! The frame condition (Lemmas/StateShape.lean): the code has exactly the state this property's model
+    accounts for — no further package-level variable, struct type or field; constants as modelled. -/
+-- also: Restful.StateShape.globals_shape
+-- also: Restful.StateShape.consts_shape
+-- also: Restful.StateShape.routing_shape
 
 end Props
 end Restful
